@@ -10,7 +10,8 @@ matrix wherever the transformation puts it) and are all set constant, so no
 optimisation is involved.  The transformed trees (child order, new root at a
 node, new root on an edge, edge split by a degree-2 node) are produced by
 harness code on a nested-dict tree model and written out as newick; one
-additional relation uses the library's own ``rooted_at`` / ``rooted_with_tip``.
+additional relation uses the library's own ``rooted_at`` / ``rooted_with_tip``.  ``execute_loci`` does the same for
+multi-locus functions (``loci=[...]``) and adds the order of the loci and the decomposition into single-locus functions.
 """
 
 from __future__ import annotations
@@ -25,32 +26,50 @@ PROPERTY_ID = "C11"
 LEVEL = "exploration"
 RULE = (
     "A case is a likelihood problem: a model name out of all 25 registered models (nucleotide reversible / non-reversible / "
-    "discrete-time, 61-state codon, 20-state protein; optionally 2-3 gamma rate bins for nucleotide models), a tree with 3-6 "
-    "tips (3-5 for codon/protein; root degree 2-4, polytomies), branch lengths log-uniform in [1e-3, 3], an alignment of 2-12 "
-    "motif columns drawn with repetition from a pool of distinct columns (IUPAC degenerates and gaps in about 12 % of the cells, "
-    "old- or new-type alignment objects), motif probabilities (equal / varied / sparse, i.e. 30-90 % of the motifs at 2e-6 as the "
-    "library assigns to unobserved motifs), parameter values 1.0 or log-uniform in [0.1, 10] with global or per-edge-group scope, and "
-    "the arguments of the transformations: a permutation of the motif-sized columns, a permutation of the sequences, child "
-    "permutations at every internal node, repeat factor k in {2,3} (tiled or in place), a multiset of columns to append, two root "
-    "placements (at an internal node or at a fraction of an edge), one library re-rooting, 1-3 edge splits, and a combination of all "
-    "of them. The word-* subs do the same for user-built reversible word models (TimeReversibleCodon with kappa+omega, "
+    "discrete-time, 61-state codon, 20-state protein) or a predicate-built non-reversible model (ns-predicate sub: "
+    "ns_substitution_model.NonReversibleNucleotide with A>C, G>A, C>T, T>G, A/T and NonReversibleDinucleotide with A>C, G>A, CG>TG), "
+    "a tree with 2-6 tips (2-5 for codon/protein/ns; root degree 2-4, polytomies), branch lengths log-uniform in [1e-3, 3] with one "
+    "edge in six in [1e-8, 1e-3] or [3, 10] (1e-8 and 10 themselves included), an alignment of 2-12 motif columns drawn with repetition "
+    "from a pool of distinct columns (IUPAC degenerates and gaps in about 12 % of the cells, old- or new-type alignment objects), motif "
+    "probabilities (equal / varied / sparse, i.e. 30-90 % of the motifs at 2e-6 as the library assigns to unobserved motifs / data, i.e. "
+    "never set, the function keeps what set_alignment derived from the alignment; 20 % of the cases), models built with "
+    "optimise_motif_probs=True in a quarter of the cases (1 in 12 for codon), parameter values 1.0 or log-uniform in [0.1, 10] with global "
+    "or per-edge-group scope, rate heterogeneity in 25-35 % of the continuous-time cases of every family (2-4 bins; gamma or 'free' "
+    "distribution on 'rate' or on a rate parameter of the model via ordered_param, or bin-params: every rate parameter has its own "
+    "constant value in every bin through set_param_rule(par, bin=...); bin probabilities left equal, or unequal through "
+    "set_param_rule('bprobs', init=...) or (value=..., is_constant=True), each >= 0.0066), and the arguments of the "
+    "transformations: a permutation of the motif-sized columns, a permutation of the sequences, child permutations at every internal "
+    "node, repeat factor k in {2,3} (tiled or in place), a multiset of columns to append, two root placements (at an internal node or at "
+    "a fraction of an edge; fraction in [0.05, 0.95] or 0, 0.5, 1), one library re-rooting (>= 3 tips), 1-3 edges split into 2, 3 or 4 "
+    "pieces at such fractions (fractions 0 and 1 and equal neighbours give zero-length pieces), and a combination of all of them. The "
+    "word-* subs do the same for user-built reversible word models (TimeReversibleCodon with kappa+omega, "
     "TimeReversibleNucleotide(motif_length=2|3) with kappa+CpG, TimeReversibleDinucleotide with kappa) under every mprob_model in "
-    "{tuple, conditional, monomer, monomers}, 3-5 tips, with word probabilities = product of per-position nucleotide frequencies "
+    "{tuple, conditional, monomer, monomers}, 2-5 tips, with word probabilities = product of per-position nucleotide frequencies "
     "that are distinct permutations of (0.46, 0.29, 0.15, 0.10) perturbed by <= 10 %, times a per-word factor in [0.8, 1.25] (1 in a "
-    "quarter of the cases). Each transformed problem is one evaluation. Non-trivial = unequal motif probabilities and (a non-identity column "
+    "quarter of the cases), or data-derived (1 in 6). The multilocus sub builds functions with loci=[2-3 names] for a continuous-time "
+    "nucleotide model: every locus has its own alignment (1-8 columns), its own motif probabilities (data-derived / explicit per locus / "
+    "one explicit vector) and shared or locus-specific parameter values; relations: per-locus column permutation, per-locus sequence "
+    "order, order of the loci, child order, k-fold repetition, lnL = sum of the single-locus functions, edge split, root placement, "
+    "combination. Each transformed problem is one evaluation. Non-trivial = unequal motif probabilities and (a non-identity column "
     "permutation over >= 3 distinct columns, or a root moved across >= 1 internal node); distinct = distinct case encodings."
 )
 ASSUMPTIONS = [
     "tolerance |lnL' - lnL| <= 1e-9 * max(1, |lnL|) (k * lnL for k-fold repetition; lnL(A)+lnL(S) for appended columns S)",
     "root-placement and edge-split relations compare P(t) of one rate matrix at different t, so they depend on the accuracy of the matrix exponential: half of the cases run them with lf.set_expm('pade') on both sides at 1e-9; the other half with the default exponentiator ('either': eigendecomposition validated by the library at numpy.allclose precision, Pade fallback) where only 1e-6 * max(1, |lnL|) is required (signatures .../default-expm/...)",
-    "re-rooting relations only for the time-reversible models (JC69 F81 K80 HKY85 TN93 GTR, all codon models except GNC, all protein models); never for GN, ssGN, GNC, BH, DT",
-    "edge-split relations only for continuous-time models (not BH/DT); both halves of a split edge get the parameter values of the original edge, so the process is homogeneous along it",
-    "appending copies of existing columns is required to add exactly the log-likelihood of those columns (sites are independent; no rate-HMM is configured)",
+    "when the motif distribution is nearly degenerate (1 - sum p_i^2 < 0.05; explicit probabilities, or for data-derived ones the complete-motif frequencies of the alignment) the calibrated rate matrix has entries of 1e2 ... 1e5 and Pade's scaling-and-squaring loses digits (measured: 6e-10 absolute at length 10): the Pade-side relations are then also only required to 1e-6",
+    "re-rooting relations only for the time-reversible models (JC69 F81 K80 HKY85 TN93 GTR, all codon models except GNC, all protein models); never for GN, ssGN, GNC, BH, DT or the predicate-built non-reversible models",
+    "edge-split relations only for continuous-time models (not BH/DT); all pieces of a split edge get the parameter values of the original edge, so the process is homogeneous along it; a zero-length piece is a constant length of 0.0 (within the library's bounds [0, 10] of 'length'; P(0) = I)",
+    "appending copies of existing columns is required to add exactly the log-likelihood of those columns (sites are independent; no rate-HMM is configured); not asserted with data-derived motif probabilities (the three alignments have different frequencies)",
+    "data-derived motif probabilities are a function of the multiset of alignment columns, so all permutation / root / split relations apply unchanged; k-fold repetition keeps the relative frequencies and is asserted when the probabilities are constant, but not when the function was built with optimise_motif_probs (set_motif_probs_from_data then adds a pseudocount of 0.5 when a motif is unobserved, which k-fold counts do not preserve)",
+    "an alignment without a single complete motif (every cell degenerate or gap) gives set_alignment nothing to derive frequencies from (0/0); such alignments (possible for appended-column subsets and 2-tip cases) are skipped",
     "codon alignments hold sense codons of the standard code, '---', 'NNN' or a sense codon with N in third position (not for TA./TG. prefixes); BH/DT alignments have no gaps or '?'",
-    "branch lengths in [1e-3, 3], rate parameters in [0.1, 10], motif probabilities >= 2e-6 (set_motif_probs lifts smaller values to 1e-6 itself); rate heterogeneity only as gamma-distributed 'rate' with equal bin probabilities; BH/DT psub matrices are row-stochastic with a dominant diagonal",
-    "all parameters are set constant through apply_param_rules / set_motif_probs; lnL is read from lf.lnL without optimisation; substitution model instances are deep copies of one pristine instance per process",
+    "branch lengths in [1e-8, 10] (split pieces down to 0), rate parameters in [0.1, 10], motif probabilities >= 2e-6 (set_motif_probs lifts smaller values to 1e-6 itself); BH/DT psub matrices are row-stochastic with a dominant diagonal",
+    "rate heterogeneity is configured through the public API only: get_model(..., ordered_param=, distribution='gamma'|'free'), make_likelihood_function(tree, bins=n | [names]), set_param_rule('<x>_shape'), set_param_rule('bprobs', init= | value=, is_constant=True), set_param_rule(par, bin=, edges=, value=); the 'free' distribution has no public setter for its partition, so it is evaluated at the library's default partition (rates proportional to 1..n); every bin probability is >= 0.0066 (> 1e-3); codon models use omega as the ordered parameter (each (model, ordered_param, distribution) is a separate 1-3 s construction)",
+    "all parameters are set constant through apply_param_rules / set_motif_probs (bprobs also as a non-constant init; motif probabilities non-constant for optimise_motif_probs models); lnL is read from lf.lnL without optimisation; substitution model instances are deep copies of one pristine instance per process and constructor keywords",
     "user-built word models are given word probabilities (dict over the word alphabet) through set_motif_probs for every mprob_model; the monomer / monomers models derive their (position-specific) nucleotide frequencies from them as documented by adapt_motif_probs; all of these models are time-reversible by construction, so every relation applies",
-    "library re-rooting (rooted_at / rooted_with_tip) is only used when parameters are globally scoped, and its relation is skipped when the library's result does not preserve the tip-to-tip path lengths (that is C09's clause)",
+    "library re-rooting (rooted_at / rooted_with_tip) is only used when parameters are globally scoped and the tree has >= 3 tips, and its relation is skipped when the library's result does not preserve the tip-to-tip path lengths (that is C09's clause)",
+    "multi-locus functions: loci are independent data sets evaluated on one tree with shared branch lengths, so lnL equals the sum of single-locus functions given the locus' alignment, motif probabilities and parameter values (doc/examples/testing_multi_loci.rst: parameters are per locus or shared; lengths have no locus dimension); listing the loci in another order (names, alignments and settings moving together) is a relabelling",
+    "signature tag tiny-edge-3step = a confirmed defect's circumstance (3-letter-motif model and an edge shorter than 1e-5 in either tree, where PadeExponentiator's order-1 approximant gets three-substitution entries of exp(Qt) wrong by 50 %); see C11_ext_findings.md",
 ]
 
 NUC_REV = ["JC69", "F81", "K80", "HKY85", "TN93", "GTR"]
@@ -955,7 +974,7 @@ def execute(case) -> Soft:
         cn = m_nodes(ctm)
         sp = xf["split"][0]
         ctm = m_split(ctm, cn[sp["node"] % len(cn)]["name"], sp["cuts"] if "cuts" in sp else [sp["frac"]], "s_c")
-    relate("combined", k * rbase, f"column permutation + sequence order + child order + {k}-fold repetition" + (" + re-rooting + split" if rtm is not None else ""),
+    relate("combined", k * rbase, f"column permutation + sequence order + child order + {k}-fold repetition" + (" + re-rooting + split" if rtm is not None else ("" if discrete else " + split")),
            ctm, [pcols[i % ncols] for i in range(ncols * k)], order, **rkw)
 
     s.evals = max(1, evals)
@@ -1178,8 +1197,8 @@ for _m in MPROB_MODELS:
 KNOWN_PREDICATES = {}
 
 META = {
-    "technique": "metamorphic relations between freshly built likelihood functions (column/sequence/child permutations, column repetition and appending, root placement at nodes and on edges, edge splitting), transformed trees produced by a harness tree model",
-    "level_text": "About 1100 generated likelihood problems per run over all 25 registered models (4-, 20- and 61-state) and 16 user-built reversible word models (codon / trinucleotide / dinucleotide x 4 motif-probability models, position-specific nucleotide frequencies), each evaluated under about ten transformations with every parameter fixed; the transformed log-likelihood must equal the original (or k times it, or the sum for appended columns) to 1e-9 relative. Root-placement and edge-split relations are evaluated with the Pade exponentiator (1e-9) or with the default exponentiator (1e-6).",
-    "level_note": "Relations between two runs of the implementation: a defect that shifts both sides equally is invisible here (that is C02's job). Trees bounded to 6 tips, alignments to 12 motif columns (36 after repetition); rate heterogeneity only as gamma bins on nucleotide models; no multi-locus functions.",
+    "technique": "metamorphic relations between freshly built likelihood functions (column/sequence/child permutations, column repetition and appending, root placement at nodes and on edges, edge splitting into 2-4 pieces incl. zero-length ones, locus order and locus decomposition for multi-locus functions), transformed trees produced by a harness tree model",
+    "level_text": "About 1250 generated likelihood problems per run over all 25 registered models (4-, 20- and 61-state), 2 predicate-built non-reversible models, 16 user-built reversible word models (codon / trinucleotide / dinucleotide x 4 motif-probability models, position-specific nucleotide frequencies) and multi-locus functions, with rate-heterogeneity bins (gamma / free / per-bin parameters, unequal bin probabilities) in about 30 % of the cases of every family, explicit or data-derived motif probabilities, branch lengths from 1e-8 to 10 and 2-6 tips; each is evaluated under about ten transformations with every parameter fixed; the transformed log-likelihood must equal the original (or k times it, or the sum for appended columns / separate loci) to 1e-9 relative. Root-placement and edge-split relations are evaluated with the Pade exponentiator (1e-9; 1e-6 for nearly degenerate motif distributions) or with the default exponentiator (1e-6).",
+    "level_note": "Relations between two runs of the implementation: a defect that shifts both sides equally is invisible here (that is C02's job). Trees bounded to 6 tips, alignments to 12 motif columns (36 after repetition); no bins on the word-* and multilocus subs; the 'free' rate distribution only at the library's default partition; no rate-HMM (sites_independent=False).",
     "design_ref": "DESIGN.md section 1, C11",
 }
